@@ -9,6 +9,9 @@
 #include <stdint.h>
 #include <stdio.h>
 
+// application types whose names the library must not take over inside the state classes, whatever switches are defined
+struct Logger { unsigned n; }; struct Task { unsigned n; }; struct Status { unsigned n; };
+
 namespace {
 
 uint64_t g_hash = 1469598103934665603ull;
@@ -74,7 +77,11 @@ struct Scenario {
 		void exitGuard(GuardControl& c) { observe(c, 200 + I); if ((g_step + I) % 6 == 1) c.cancelPendingTransition(); }
 		void exit(PlanControl& c) { observe(c, 210 + I); }
 	};
-	struct R : Base<9> {}; struct A : Base<0> {}; struct B : Base<1> {}; struct C : Base<2> {};
+	struct R : Base<9> {}; struct A : Base<0> {};
+	// a state that uses the application's own Logger / Task / Status types by their unqualified names
+	struct B : Base<1> { void reenter(typename Base<1>::PlanControl& c) { Logger lg{3}; Task tk{5}; Status st{7}; mixin(lg.n + tk.n + st.n); observe(c, 121); } };
+	// a state whose default constructor is not public: the machine constructs it as part of itself, nobody else can
+	struct C : Base<2> { protected: C() {} };
 	using Instance = typename FSM::Instance;
 
 	template <bool Manual> static void drive(Instance& m) {
